@@ -54,9 +54,96 @@ def _interval_str(r):
     return f'{"[" if r.lo_closed else "("}{r.lo},{r.hi}{"]" if r.hi_closed else ")"}'
 
 
+def bins_model(ctx):
+    """both copies of the window arithmetic (coordinate_to_sliding_bin_locations / coordinate_to_bins in bamToCountTable and utils.binning), run by the abstract
+    interpreter on every (coordinate 0..40, bin size 1..7, increment 1..7), integer and half-integer coordinates: the windows are exactly the (i*s, i*s+b) with
+    i*s <= p < i*s+b in ascending order, and the index function returns (first*s, last*s+b, first, last).  (ok, cases, witness) / None.  Cached per run."""
+    if hasattr(ctx, '_bins_model'):
+        return ctx._bins_model
+    import math
+    from ..consteval import run_function, Raised, Unfoldable, module_scope, LocalFn
+    ctx._bins_model = None
+    n = 0
+    try:
+        for relpath in (COUNTTABLE, BINNING):
+            env = module_scope(ctx.ix, relpath)
+            loc, bins = env.get('coordinate_to_sliding_bin_locations'), env.get('coordinate_to_bins')
+            if not isinstance(loc, LocalFn) or not isinstance(bins, LocalFn):
+                return None
+            for b in range(1, 8):
+                for s_ in range(1, 8):
+                    for p2 in range(0, 81):
+                        p = p2 / 2 if p2 % 2 else p2 // 2
+                        if p2 % 2 and p2 > 21:
+                            continue
+                        n += 1
+                        first = math.floor((p - b) / s_) + 1
+                        last = math.floor(p / s_)
+                        want = [(i * s_, i * s_ + b) for i in range(first, last + 1)]
+                        got = run_function(bins.fdef, [p, b, s_], env=bins.scope, budget=20000)
+                        got = [tuple(x) for x in got]
+                        case = {'file': relpath.split('/')[-1], 'coordinate': p, 'bin size': b, 'sliding increment': s_}
+                        if got != want:
+                            ctx._bins_model = (False, n, dict(case, problem=f'coordinate_to_bins yields {got[:6]}, the windows containing the coordinate are {want[:6]}'))
+                            return ctx._bins_model
+                        g4 = run_function(loc.fdef, [p, b, s_], env=loc.scope, budget=20000)
+                        if tuple(g4) != (first * s_, last * s_ + b, first, last):
+                            ctx._bins_model = (False, n, dict(case, problem=f'coordinate_to_sliding_bin_locations returns {tuple(g4)}, expected {(first * s_, last * s_ + b, first, last)}'))
+                            return ctx._bins_model
+    except (Unfoldable, Raised):
+        return None
+    except Exception:
+        return None
+    ctx._bins_model = (True, n, None)
+    return ctx._bins_model
+
+
+def _model_or_symbolic(ctx, rid, symbolic):
+    """the symbolic (rounding-domain) reading of the window arithmetic decides; where it cannot follow a restructured implementation the exhaustive small-scope
+    evaluation of both copies decides instead"""
+    from ..core import Ctx, VIOLATED, UNDECIDED
+    sub = Ctx(ctx.ix, 'C10', ctx.tier)
+    err = None
+    try:
+        symbolic(sub)
+    except AnalysisError as e_:
+        err = e_
+    except Exception as e_:
+        err = AnalysisError(f'symbolic reading failed ({type(e_).__name__}: {e_})')
+    for k_, v_ in sub.counters.items():
+        ctx.counters[k_] = (ctx.counters.get(k_, set()) | v_) if isinstance(v_, set) else ctx.counters.get(k_, 0) + v_
+    for k_, v_ in getattr(sub, 'exhaustive', {}).items():
+        ctx.exhaustive[k_] = v_
+    open_ = [o for o in sub.obligations if o.status in (VIOLATED, UNDECIDED)]
+    if err is None and not open_:
+        ctx.obligations.extend(sub.obligations)
+        return
+    m = bins_model(ctx)
+    if m is None:
+        ctx.obligations.extend(sub.obligations)
+        if err is not None:
+            raise err
+        return
+    ok, n, wit = m
+    f = ctx.fn(BINNING, 'coordinate_to_bins')
+    ctx.counters['interpreted_cases'] += n
+    if ok:
+        ctx.obligations.extend([o for o in sub.obligations if o not in open_])
+        ctx.emit(rid, True, BINNING, f, f'both copies of the window arithmetic evaluated on {n} (coordinate, bin size, increment) triples: the windows are exactly the (i*s, i*s+b) that contain the coordinate '
+                 f'(the symbolic reading did not follow {len(open_)} construct(s) of the restructured functions)', key='window-arithmetic-model')
+    else:
+        ctx.obligations.extend(sub.obligations)
+        ctx.emit(rid, False, BINNING, f, f'window arithmetic: {wit.get("problem")} - {({k_: v_ for k_, v_ in wit.items() if k_ != "problem"})}', key='window-arithmetic-model', witness=wit,
+                 what='window arithmetic: ' + str(wit.get('problem')))
+
+
 @rule('C10', 'C10-R1', 'first window index is the smallest i with i*s + b > p (i - (p-b)/s in (0,1]) and the last the '
                        'largest with i*s <= p (i - p/s in (-1,0]), derived from rounding bounds of floor/ceil/int/"//"')
 def r1(ctx):
+    _model_or_symbolic(ctx, 'C10-R1', _r1_symbolic)
+
+
+def _r1_symbolic(ctx):
     for relpath, name in COPIES:
         f, (p, b, s), res, env, elts = analyse_copy(ctx, relpath, name)
         for role, want_q, want in (('first', Lin({p: 1, b: -1}), (0, False, 1, True)), ('last', Lin({p: 1}), (-1, False, 0, True))):
@@ -92,6 +179,10 @@ def r1(ctx):
 
 @rule('C10', 'C10-R2', 'the two copies of the window arithmetic (bamToCountTable, utils.binning) agree on the abstract result')
 def r2(ctx):
+    _model_or_symbolic(ctx, 'C10-R2', _r2_symbolic)
+
+
+def _r2_symbolic(ctx):
     sigs = []
     for relpath, name in COPIES:
         f, (p, b, s), res, env, elts = analyse_copy(ctx, relpath, name)
@@ -147,6 +238,10 @@ def _r3_direct(ctx, relpath, f, p, b, s):
 
 @rule('C10', 'C10-R3', 'windows are built as (i*s, i*s + b) for i = first..last inclusive from the indices returned by the index function')
 def r3(ctx):
+    _model_or_symbolic(ctx, 'C10-R3', _r3_symbolic)
+
+
+def _r3_symbolic(ctx):
     for relpath in (COUNTTABLE, BINNING):
         f = ctx.fn(relpath, 'coordinate_to_bins')
         point, b, s = [a.arg for a in f.args.args][:3]
